@@ -17,6 +17,8 @@ def cfg_term(spec):
         k = s["kind"]
         if k == "MetaepochLimit":
             return f"LMetaLimit {s['n']}"
+        if k == "FitnessSteadiness":
+            return f"(LSteadiness {int(s['n'])})"
         return {"DontStop": "LDontStop", "DontRun": "LDontRun", "AllChildrenStopped": "LAllChildrenStopped"}.get(k, "LOracle")
     lscs = "[" + "; ".join(lsc(l["lsc"]) for l in spec["levels"]) + "]"
     g = spec["gsc"]
